@@ -512,16 +512,9 @@ Definition rt_context_independent : Prop :=
     in_range t1 a -> in_range t2 b -> in_range t3 c ->
     rt_nested_l o1 o2 t1 t2 t3 a b c = rt_stored_l o1 o2 t1 t2 t3 a b c.
 
-(* still false after 1d3f0fa: `///` of mixed signedness on a result type narrower than int is
-   emitted as ((T)l / (T)r), computed in int and not cast back *)
-Lemma rt_context_independent_refuted : ~ rt_context_independent.
-Proof.
-  intros H. specialize (H Btdiv Bgt I8 U8 I8 (-128) 255 0).
-  vm_compute in H. assert (E : Rbool true = Rbool false) by (apply H; try reflexivity; split; congruence).
-  discriminate E.
-Qed.
-
+(* witnesses of the defects repaired by 1d3f0fa / 8eb30df *)
 Lemma nested_repaired_witnesses :
+  rt_nested_l Btdiv Bgt I8 U8 I8 (-128) 255 0 = Rbool false /\ rt_stored_l Btdiv Bgt I8 U8 I8 (-128) 255 0 = Rbool false /\
   rt_nested_l Badd Bgt I8 I8 I8 127 1 0 = Rbool false /\ rt_stored_l Badd Bgt I8 I8 I8 127 1 0 = Rbool false /\
   rt_nested_l Badd Bidiv U8 U8 U8 200 100 2 = Rval U8 22 /\ rt_stored_l Badd Bidiv U8 U8 U8 200 100 2 = Rval U8 22.
 Proof. repeat split. Qed.
@@ -630,13 +623,12 @@ Proof.
     end; reflexivity.
 Qed.
 
-(* partial: every inner operator except `///` and `%%%` of mixed signedness on a result type
-   narrower than int (`///` is genuinely context dependent there; `%%%` is not but is unproved) *)
-Lemma rt_context_independent_partial o1 o2 t1 t2 t3 a b c : wf_ity t1 -> wf_ity t2 -> is_cmpop o1 = false ->
-  ~ (mixed t1 t2 = true /\ (o1 = Btdiv \/ o1 = Btmod) /\ bits (rt_type o1 t1 t2) < 32) ->
-  rt_nested_l o1 o2 t1 t2 t3 a b c = rt_stored_l o1 o2 t1 t2 t3 a b c.
+(* FULL: the value of an operator result does not depend on whether it is stored first or consumed
+   directly by another operator - every non-comparison inner operator, every outer operator, all
+   types and ALL values *)
+Lemma rt_context_independent_holds : rt_context_independent.
 Proof.
-  intros H1 H2 Hc Hcorner. unfold rt_nested_l, rt_stored_l.
+  intros o1 o2 t1 t2 t3 a b c H1 H2 _ Hc _ _ _. unfold rt_nested_l, rt_stored_l.
   pose proof (rt_type_wf o1 t1 t2 H1 H2) as Hwt. set (t := rt_type o1 t1 t2) in *.
   unfold rt_bin_c. fold t.
   destruct (uses_helper o1 t1 t2) eqn:U.
@@ -645,19 +637,13 @@ Proof.
     - exfalso. exact (rt_bin_not_bool _ _ _ _ _ _ Hc R). }
   rewrite Hc.
   destruct (mixed t1 t2 && match o1 with Btdiv | Btmod => true | _ => false end) eqn:MD.
-  { (* ((T)l / (T)r) on a type at least as wide as int *)
+  { (* (T)((T)l / (T)r) *)
     apply andb_prop in MD. destruct MD as [M D].
-    assert (W : (bits t <? 32) = false).
-    { destruct (bits t <? 32) eqn:E; [|reflexivity]. exfalso. apply Hcorner. repeat split; [exact M | destruct o1; try discriminate D; auto | lia]. }
-    rewrite (wide_self_type t Hwt W).
     assert (R : rt_bin o1 t1 t2 a b = of_val t (obind (c_conv Gnu t a) (fun a' => obind (c_conv Gnu t b) (plain_c o1 t t a')))).
     { unfold rt_bin. fold t. destruct o1; try discriminate D; rewrite M; reflexivity. }
     rewrite R. unfold of_val.
-    destruct (c_conv Gnu t a) as [a'|]; cbn [obind omap]; [|reflexivity].
-    destruct (c_conv Gnu t b) as [b'|]; cbn [obind omap]; [|reflexivity].
-    destruct (plain_c o1 t t a' b') as [raw|] eqn:P; cbn [obind omap]; [|reflexivity].
-    pose proof (plain_c_range o1 t t a' b' raw Hwt Hwt Hc P) as Hr. rewrite (wide_self_type t Hwt W) in Hr.
-    rewrite c_conv_inrange by assumption. reflexivity. }
+    destruct (obind (obind (c_conv Gnu t a) (fun a' => obind (c_conv Gnu t b) (plain_c o1 t t a'))) (c_conv Gnu t));
+      cbn [omap]; reflexivity. }
   assert (PO : plain_op o1 t1 t2 = true) by (unfold plain_op; rewrite U, Hc, MD; reflexivity).
   rewrite (rt_bin_plain o1 t1 t2 a b PO). fold t. unfold of_val.
   destruct (mixed t1 t2 || (bits t <? 32)) eqn:C.
